@@ -22,7 +22,7 @@ type c13 struct{}
 func init() { Register(c13{}) }
 
 type c13Params struct {
-	Scenario string `json:"scenario"` // established | first-use | close-race | pa-first-use
+	Scenario string `json:"scenario"` // established | first-use | close-race | close-blocked | pa-first-use
 	Stack    string `json:"stack"`
 	Suite    uint16 `json:"suite"`
 	Writers  int    `json:"writers"`
@@ -64,13 +64,15 @@ func drawC13(src *vs.Src) *c13Params {
 		p.Scenario = "established"
 	case 3, 4, 5:
 		p.Scenario = "first-use"
-	case 6, 7, 8:
+	case 6, 7:
 		p.Scenario = "close-race"
+	case 8:
+		p.Scenario = "close-blocked"
 	default:
 		p.Scenario = "pa-first-use"
 	}
 	p.Stack = pickStr(src, []string{TLCP, TLCP, DTLCP})
-	if p.Scenario == "pa-first-use" {
+	if p.Scenario == "pa-first-use" || p.Scenario == "close-blocked" {
 		p.Stack = TLCP
 	}
 	p.Suite = AllSuites[src.Intn(2)] // ECC suites: the handshake is not what is under test here
@@ -165,6 +167,9 @@ func (c13) Run(c *Case, src *vs.Src) *Result {
 	r.Sample = p
 	if p.Scenario == "pa-first-use" {
 		return runC13PA(c, src, p, r)
+	}
+	if p.Scenario == "close-blocked" {
+		return runC13Blocked(c, src, p, r)
 	}
 	w := NewWorld(c.Seed, src)
 	w.K.MaxElapsed = 120 * time.Second
@@ -524,3 +529,116 @@ func runC13PA(c *Case, src *vs.Src, p *c13Params, r *Result) *Result {
 	}
 	return r
 }
+
+// ---- Close while Writes are blocked in a transport whose peer does not read
+
+func runC13Blocked(c *Case, src *vs.Src, p *c13Params, r *Result) *Result {
+	sigp := "C13 tlcp close-blocked"
+	w := NewWorld(c.Seed, src)
+	w.K.MaxElapsed = 60 * time.Second
+	env := NewEnv(w)
+	cc := &EPConf{Suites: []uint16{p.Suite}, ServerName: "server.test"}
+	sc := &EPConf{Suites: []uint16{p.Suite}, Certs: []string{"server_sig", "server_enc"}}
+	pair := NewPair(TLCP, env, cc, sc, "c", "s", "client:1", "server:443")
+	st := &c13Shared{}
+	var closeTook time.Duration
+	var hsErr, closeErr, close2 error
+	results := make([]error, p.Writers)
+	w.Go("peer", func() {
+		// handshakes, then never reads again
+		if err := pair.S.Handshake(); err != nil {
+			return
+		}
+		vs.Block(func() bool { return pair.Pipe.C.IsClosed() }, vs.Now().Add(50*time.Second))
+		pair.S.Close()
+	})
+	w.Go("ut", func() {
+		err := pair.C.Handshake()
+		if err != nil {
+			hsErr = err
+			st.set(2)
+			return
+		}
+		pair.Pipe.C.SetLimit(3000) // from now on the transport accepts 3000 bytes and then blocks
+		st.set(1)
+	})
+	for i := 0; i < p.Writers; i++ {
+		i := i
+		w.Go(fmt.Sprintf("ut-writer%d", i), func() {
+			vs.Block(func() bool { return st.get() != 0 }, time.Time{})
+			if st.get() == 2 {
+				return
+			}
+			for k := 0; k < 40; k++ {
+				st.add(1)
+				_, err := pair.C.Write(c13FrameN(i, k, 1000))
+				st.add(-1)
+				if err != nil {
+					results[i] = err
+					return
+				}
+			}
+		})
+	}
+	w.Go("ut-closer", func() {
+		vs.Block(func() bool { return st.get() != 0 }, time.Time{})
+		if st.get() == 2 {
+			return
+		}
+		// wait until the pipe is full and a writer is inside Write
+		vs.Block(func() bool { return pair.Pipe.S.Pending() >= 3000 && st.inWrite() > 0 }, vs.Now().Add(5*time.Second))
+		for i := 0; i < p.CloseAt; i++ {
+			vs.Yield()
+		}
+		t0 := w.K.Elapsed()
+		closeErr = pair.C.Close()
+		closeTook = w.K.Elapsed() - t0
+		close2 = pair.C.Close()
+	})
+	reason, unf := w.Run()
+	w.Finish(r, sigp)
+	r.Key = r.Trace
+	r.Outcome = reason
+	if closeTook > 6*time.Second {
+		// Close may spend at most its own 5 s close-notify write deadline; here it came back only when the
+		// PEER gave up after 50 s
+		r.Violate("close-blocked", sigp+" close-does-not-unblock", "Close with Writes blocked in the transport took %v of virtual time (it returned only when the peer went away)", closeTook)
+	}
+	if hsErr != nil {
+		r.Violate("setup", sigp+" handshake-failed", "%v", hsErr)
+		return r
+	}
+	if reason != vs.Done {
+		r.Violate("deadlock", sigp+" "+reason, "Close with Writes blocked in the transport: run ended with %q, unfinished tasks %v (Close returned %v)", reason, unf, closeErr)
+		return r
+	}
+	for i, e := range results {
+		if e == nil {
+			r.Violate("write", sigp+" blocked-write-returned-nil", "writer %d completed 40 KB into a pipe of 3000 bytes", i)
+		}
+	}
+	if close2 != net.ErrClosed {
+		r.Violate("second-close", sigp+" second-close", "second Close returned %v", close2)
+	}
+	r.Stat("close_with_blocked_write", 1)
+	return r
+}
+
+// c13Shared is harness state shared between tasks; accessed through //go:norace methods so that the
+// race detector only ever reports on the library.
+type c13Shared struct {
+	state   int // 0 not ready, 1 ready, 2 handshake failed
+	writing int
+}
+
+//go:norace
+func (s *c13Shared) set(v int) { s.state = v }
+
+//go:norace
+func (s *c13Shared) get() int { return s.state }
+
+//go:norace
+func (s *c13Shared) add(d int) { s.writing += d }
+
+//go:norace
+func (s *c13Shared) inWrite() int { return s.writing }
